@@ -266,8 +266,13 @@ def depsAll (c : Case) (st : FState) (obs : List Ev) (t : Nat) : List Nat :=
   if created.isEmpty then
     (match lookup0 st.tasks t with | some td => td.deps | none => [])
   else
-    -- a created task: the `executed` trigger is a dependency of the placeholder, not of the task that replaces it
-    created.flatMap fun (cB, nt) => nt.deps ++ (nt.fileDep.filterMap fun f => implicitOwner c obs cB f)
+    -- a created task: the `executed` trigger is a task_dep of the placeholder, not of the task that replaces it; but
+    -- (repair of finding C05 delayed-group-subtasks-run, `TaskDispatcher.inherited_status`) the node of a created task
+    -- inherits the placeholder's bad_deps, so a created task starts only after a GOOD report of the creator's trigger
+    created.flatMap fun (cB, nt) => nt.deps ++ (nt.fileDep.filterMap fun f => implicitOwner c obs cB f) ++
+      ((st.tasks.filterMap fun p => match p.2.loader with
+          | some l => if c.pre.creatorOf l == cB then c.pre.execOf l else none
+          | none => none).eraseDups)
 
 /-- for the closure of the selection: a name stands for the placeholder AND for the task that replaces it -/
 def depsClosure (c : Case) (st : FState) (obs : List Ev) (t : Nat) : List Nat :=
